@@ -112,32 +112,44 @@ class BooleanExpression(Expression):
         )
 
     def __str__(self) -> str:
-        def _str(expression: Expression, parent_precedence: int) -> str:
+        # Mirror the parser. `and` and `or` have equal precedence and are right
+        # associative, and `not` applies to everything to its right. So a left
+        # operand must be parenthesized if it is itself a logical expression, and
+        # operands of comparison operators must be parenthesized if they are
+        # anything but a primitive expression.
+        logical = (LogicalAndExpression, LogicalOrExpression, LogicalNotExpression)
+
+        def _str(expression: Expression, *, group: bool) -> str:
             if isinstance(expression, LogicalAndExpression):
-                precedence = PRECEDENCE_LOGICAL_AND
-                op = "and"
-                left = _str(expression.left, precedence)
-                right = _str(expression.right, precedence)
+                left = _str(expression.left, group=isinstance(expression.left, logical))
+                # Parentheses around a right-hand `or` are redundant, but harmless.
+                right = _str(
+                    expression.right,
+                    group=isinstance(expression.right, LogicalOrExpression),
+                )
+                expr = f"{left} and {right}"
             elif isinstance(expression, LogicalOrExpression):
-                precedence = PRECEDENCE_LOGICAL_OR
-                op = "or"
-                left = _str(expression.left, precedence)
-                right = _str(expression.right, precedence)
+                left = _str(expression.left, group=isinstance(expression.left, logical))
+                right = _str(expression.right, group=False)
+                expr = f"{left} or {right}"
             elif isinstance(expression, LogicalNotExpression):
-                operand_str = _str(expression.right, PRECEDENCE_PREFIX)
-                expr = f"not {operand_str}"
-                if parent_precedence > PRECEDENCE_PREFIX:
-                    return f"({expr})"
-                return expr
+                right = _str(
+                    expression.right,
+                    group=isinstance(
+                        expression.right, (LogicalAndExpression, LogicalOrExpression)
+                    ),
+                )
+                expr = f"not {right}"
+            elif type(expression) in COMPARISON_OPERATORS:
+                left = _str(expression.left, group=True)  # type: ignore
+                right = _str(expression.right, group=True)  # type: ignore
+                expr = f"{left} {COMPARISON_OPERATORS[type(expression)]} {right}"
             else:
                 return str(expression)
 
-            expr = f"{left} {op} {right}"
-            if precedence < parent_precedence:
-                return f"({expr})"
-            return expr
+            return f"({expr})" if group else expr
 
-        return _str(self.expression, 0)
+        return _str(self.expression, group=False)
 
     def evaluate(self, context: RenderContext) -> bool:
         return is_truthy(self.expression.evaluate(context))
@@ -425,6 +437,17 @@ class ContainsExpression(Expression):
 
     def children(self) -> list[Expression]:
         return [self.left, self.right]
+
+
+COMPARISON_OPERATORS: dict[type[Expression], str] = {
+    EqExpression: "==",
+    NeExpression: "!=",
+    LeExpression: "<=",
+    GeExpression: ">=",
+    LtExpression: "<",
+    GtExpression: ">",
+    ContainsExpression: "contains",
+}
 
 
 def parse_boolean_primitive(  # noqa: PLR0912
